@@ -511,19 +511,29 @@ def hook_diagonalize_form(call):
     with_inv = bool(b.get("with_inverse"))
     units = _units(batch)
     sigs = {}
+    wide = False
     for ix in units:
         if lin.sym_defect(B[ix]) > 1e-9:
             return mon.skip("form not symmetric")
         p, q, ok = lin.signature(B[ix], EIG)
         if not ok:
-            return mon.skip("form degenerate (|eigenvalue| < 1e-3 max)")
+            # eigenvalues bounded away from zero but spread over many orders of
+            # magnitude (coordinates with very different units per axis): still a
+            # non-degenerate form; judged with an eps-based tolerance relative to
+            # the sizes involved (seeded change C18-r5-3: eigenvalues below
+            # 1e-8 max treated as vanishing)
+            p, q, ok = lin.signature(B[ix], 1e-11)
+            if not ok:
+                return mon.skip("form degenerate (|eigenvalue| < 1e-11 max)")
+            wide = True
         sigs[ix] = (p, q)
     if reverse and batch and order:
         # np.flip(order) without an axis also reverses the batch axes
         if len(set(sigs.values())) > 1:
             return mon.skip("reverse=True on a batch of forms of different signature")
-    cls = "%s%s/%s/%s" % (order if order else "unordered", "+reverse" if reverse else "",
-                          "with_inverse" if with_inv else "W-only", "batch" if batch else "unit")
+    cls = "%s%s/%s/%s%s" % (order if order else "unordered", "+reverse" if reverse else "",
+                            "with_inverse" if with_inv else "W-only", "batch" if batch else "unit",
+                            "/wide-spectrum" if wide else "")
     case = {"function": "diagonalize_form", "form": B if B.size <= 200 else B.shape,
             "order_eigenvalues": order, "reverse": reverse, "with_inverse": with_inv}
     if call.exc is not None and not _first_sight(call.exc):
@@ -552,7 +562,7 @@ def hook_diagonalize_form(call):
         sc = np.maximum(1.0, np.outer(nw, nw) * lin.spectral_norm(Bi))
         sg = np.sign(np.diag(D))
         r = float(np.max(np.abs(D - np.diag(sg)) / sc))
-        if not mon.judge(r, TOL_G, "diagonalize_form/not-diagonal-pm1/%s" % cls,
+        if not mon.judge(r, 2e-12 if wide else TOL_G, "diagonalize_form/not-diagonal-pm1/%s" % cls,
                          "W^T B W is not diagonal with entries +-1", c):
             continue
         if not mon.require(int(np.sum(sg > 0)) == p and int(np.sum(sg < 0)) == q,
@@ -744,8 +754,16 @@ def _sphere_judge(mon, name, P, center, radius, case):
             mon.fail("%s/non-finite/%s" % (name, cls), "non-finite sphere for points in general position", cc)
             continue
         res = lin.sphere_residual(pts, c[ix], float(r[ix]))
-        # |c - p0| ~ diam / margin: relative error grows like eps / margin^2
-        mon.judge(res, 1e-9 / mg ** 2, "%s/point-not-on-sphere/%s" % (name, cls),
+        # |c - p0| ~ diam / margin: relative error grows like eps / margin^2.
+        # Points far from the origin carry an absolute rounding eps*|p| in their
+        # own coordinates (and so does the returned centre): that much, relative
+        # to the size of the sphere, is the floor for ANY algorithm; a method that
+        # cancels |p_i|^2 - |p_0|^2 in absolute coordinates loses eps*|p|^2/r
+        # instead (seeded change C18-r5-2)
+        far = float(np.max(np.linalg.norm(pts, axis=-1)))
+        sc = max(float(abs(r[ix])), float(np.max(np.linalg.norm(pts - pts[:1], axis=-1))), 1e-300)
+        floor = 64.0 * np.finfo(float).eps * far / sc
+        mon.judge(res, (1e-9 + floor) / mg ** 2, "%s/point-not-on-sphere/%s" % (name, cls),
                   "a given point is not at distance `radius` from `center`", cc)
 
 
@@ -1076,6 +1094,8 @@ def wl_diagonalize(run, rng, idx):
     p, q = SIGNATURES[idx % len(SIGNATURES)]
     n = p + q
     variant = (idx // len(SIGNATURES)) % 6
+    if idx % 7 == 3 and n >= 2:
+        variant = 6
     if variant == 0:
         B = form_in_domain(rng, p, q)
         kind = "QtDQ"
@@ -1090,6 +1110,17 @@ def wl_diagonalize(run, rng, idx):
         B = Q.T @ np.diag(d) @ Q
         B = (B + B.T) / 2
         kind = "spread-eigenvalues"
+    elif variant == 6:
+        # |eigenvalues| from 1 to 1e9 in one form (A^T J A in coordinates with very
+        # different units per axis)
+        Q = rh.rand_orth(rng, n)
+        mags = 10.0 ** rng.uniform(0, 9, size=n)
+        mags[int(rng.integers(n))] = 10.0 ** rng.uniform(8.5, 9.5)
+        mags[int(rng.integers(n))] = float(rng.uniform(1, 5))
+        d = np.array([1.0] * p + [-1.0] * q)[rng.permutation(n)] * mags
+        B = Q.T @ np.diag(d) @ Q
+        B = (B + B.T) / 2
+        kind = "wide-spectrum"
     elif variant == 3:
         B = coxeter_form(rng, max(n, 2))
         kind = "coxeter"
@@ -1166,6 +1197,11 @@ def _sphere_points(rng, d, cls):
         return rng.integers(-6, 7, size=(d + 1, d)).astype(float)
     c = rng.normal(size=d) * 10 ** rng.uniform(-1, 1)
     r = 10 ** rng.uniform(-2, 2)
+    if cls == "far-from-origin":
+        # a sphere of moderate size at distance 1e3 .. 3e7 from the origin (the
+        # half-space circle of a geodesic between x = 1e6 and x = 1e6 + 1, say)
+        c = rh.rand_sphere(rng, d, ()) * 10 ** rng.uniform(3, 7.5)
+        r = 10 ** rng.uniform(-0.5, 1)
     u = rh.rand_sphere(rng, d, (d + 1,))
     if cls == "near-degenerate" and d >= 1:
         u[-1] = u[0] + 10 ** rng.uniform(-2.0, -1) * rng.normal(size=d)
@@ -1181,14 +1217,14 @@ def _sphere_points(rng, d, cls):
 def wl_spheres(run, rng, idx):
     from geometry_tools import utils
     d = 1 + idx % 5                      # points in R^d, d+1 of them
-    batch = BATCHES[(idx // 5) % len(BATCHES)]
-    cls = ["bulk", "near-degenerate", "lattice", "large-radius"][(idx // 20) % 4]
+    batch = BATCHES[(idx // 25) % len(BATCHES)]
+    cls = ["bulk", "near-degenerate", "lattice", "large-radius", "far-from-origin"][(idx // 5) % 5]
     P = np.empty(batch + (d + 1, d))
     for ix in (np.ndindex(*batch) if batch else [()]):
         for attempt in range(200):
             pts = _sphere_points(rng, d, cls)
             mg = lin.simplex_margin(pts)
-            if mg >= (0.05 if cls in ("bulk", "lattice") else 3e-3):
+            if mg >= (0.05 if cls in ("bulk", "lattice", "far-from-origin") else 3e-3):
                 break
         else:
             while True:
